@@ -168,6 +168,23 @@ func init() {
 			}
 			return done(Eq(x.Off, y.Off))
 		},
+		"And": func(e *Exec, fr *Frame, fn *ssa.Function, a []Value) (Value, int) {
+			r := tTrue
+			for _, t := range e.sliceTerms(a[0].(SliceVal)) {
+				r = And(r, t)
+			}
+			return done(r)
+		},
+		"Or": func(e *Exec, fr *Frame, fn *ssa.Function, a []Value) (Value, int) {
+			r := tFalse
+			for _, t := range e.sliceTerms(a[0].(SliceVal)) {
+				r = Or(r, t)
+			}
+			return done(r)
+		},
+		"Implies": func(e *Exec, fr *Frame, fn *ssa.Function, a []Value) (Value, int) {
+			return done(Or(Not(a[0].(*Term)), a[1].(*Term)))
+		},
 		"SameBacking": func(e *Exec, fr *Frame, fn *ssa.Function, a []Value) (Value, int) {
 			x, y := a[0].(SliceVal), a[1].(SliceVal)
 			return done(Bool(x.Back != nil && x.Back == y.Back))
@@ -286,6 +303,18 @@ func (e *Exec) sliceBytes(s SliceVal) StrVal {
 	return StrVal{b}
 }
 
+func (e *Exec) sliceTerms(s SliceVal) []*Term {
+	if s.Back == nil {
+		return nil
+	}
+	n, off := int(e.concretize(s.Len)), int(e.concretize(s.Off))
+	out := make([]*Term, n)
+	for i := range out {
+		out[i] = e.loadElem(s.Back, off+i).(*Term)
+	}
+	return out
+}
+
 func (e *Exec) strIndex(s, sub StrVal) Value {
 	n, m := len(s.B), len(sub.B)
 	if m == 0 {
@@ -370,6 +399,7 @@ func init() {
 			return done(Ptr{})
 		},
 		"(*google.golang.org/protobuf/internal/impl.MessageState).StoreMessageInfo": nop,
+		"(*google.golang.org/protobuf/internal/impl.messageState).StoreMessageInfo": nop,
 		"runtime.Callers":      func(e *Exec, fr *Frame, fn *ssa.Function, a []Value) (Value, int) { return done(konst(0)) },
 		"runtime.KeepAlive":    nop,
 		"runtime.SetFinalizer": nop,
